@@ -45,6 +45,16 @@ type ConcSpec struct {
 	Clients   [][]Step `json:"clients"`
 }
 
+// WideSpec marks a scenario that consists of one wide level of independent modules
+// whose start routines are held by a barrier. Mode "burst": all are released together.
+// Mode "held": the manager goroutine is held (write lock of module Hold) while the
+// routines in Order finish one after the other; the rest is released afterwards.
+type WideSpec struct {
+	Mode  string   `json:"mode"`
+	Hold  string   `json:"hold,omitempty"`
+	Order []string `json:"order,omitempty"`
+}
+
 // Scenario is one complete module-system life: Register…, Start, script, Shutdown.
 type Scenario struct {
 	ID        int       `json:"id"`
@@ -56,6 +66,7 @@ type Scenario struct {
 	Notify    bool      `json:"notify,omitempty"`  // register a change-notify function
 	NilMid    string    `json:"nil_mid,omitempty"` // module without stop function placed inside a dependency path
 	Conc      *ConcSpec `json:"conc,omitempty"`
+	Wide      *WideSpec `json:"wide,omitempty"`
 	// Enable/Disable calls made during Start: from the global prep function
 	// (key "globalprep") or from the prep routine of a module (key = module name)
 	PrepOps     map[string][]Step `json:"prep_ops,omitempty"`
@@ -231,6 +242,8 @@ func genScenario(seed uint64, tier string, id int) Scenario {
 			return genConcScenario(r, maxN, id, "manage")
 		case 5:
 			return genPrepSwitchScenario(r, maxN, id)
+		case 1:
+			return genWideScenario(r, tier, id)
 		}
 	}
 	if id < 2*grid {
@@ -542,6 +555,48 @@ func genConcScenario(r *vlib.Rand, maxN, id int, kind string) Scenario {
 	return sc
 }
 
+// genWideScenario builds one wide level: 10-24 (thorough: 10-40) independent modules,
+// 1-3 of which fail to start (error or panic), all finishing their start routines at
+// about the same time, so that many start reports wait for the manager at once.
+func genWideScenario(r *vlib.Rand, tier string, id int) Scenario {
+	sc := Scenario{ID: id, Family: "wide", FailPhase: "start", Delays: "wide"}
+	w := r.Range(10, 24)
+	if tier == "thorough" {
+		w = r.Range(10, 40)
+	}
+	mods := make([]ModSpec, w)
+	for i := range mods {
+		mods[i] = ModSpec{Name: modName(i), Prep: Behav{Nil: r.Chance(1, 2)}, Start: Behav{DelayUs: r.Range(0, 250)}, Stop: Behav{DelayUs: r.Range(0, 500)}}
+	}
+	perm := make([]int, w)
+	for i := range perm {
+		perm[i] = i
+	}
+	vlib.Shuffle(r, perm)
+	nFail := r.Range(1, 3)
+	for _, i := range perm[:nFail] {
+		mods[i].Start.Fail = vlib.Pick(r, "err", "err", "panic", "panic-err")
+		mods[i].Start.FailFirst = -1
+		mods[i].Start.DelayUs = r.Range(0, 60) // a failing report takes longer to produce
+	}
+	sc.Wide = &WideSpec{Mode: "burst"}
+	if r.Bool() {
+		// held: a succeeding routine, then a failing one, then 1-2 succeeding ones
+		sc.Wide.Mode = "held"
+		sc.Wide.Hold = modName(perm[w-1])
+		order := []int{perm[nFail], perm[0], perm[nFail+1]}
+		if r.Bool() {
+			order = append(order, perm[nFail+2])
+		}
+		for _, i := range order {
+			sc.Wide.Order = append(sc.Wide.Order, modName(i))
+		}
+	}
+	vlib.Shuffle(r, mods)
+	sc.Mods = mods
+	return sc
+}
+
 // genPrepSwitchScenario builds a life with management on in which nothing fails and
 // the program changes its mind during Start: a module X that was enabled before Start
 // and has dependencies is disabled from the global prep function or from the prep
@@ -649,6 +704,9 @@ func (sc *Scenario) signature() string {
 				fmt.Fprintf(&sb, ";%s>%s:%s", k, st.Op, st.Mod)
 			}
 		}
+	}
+	if sc.Wide != nil {
+		fmt.Fprintf(&sb, ";wide=%s/%s/%v", sc.Wide.Mode, sc.Wide.Hold, sc.Wide.Order)
 	}
 	if sc.Conc != nil {
 		fmt.Fprintf(&sb, ";conc=%s/%s", sc.Conc.Kind, sc.Conc.Park)
